@@ -111,6 +111,55 @@ theorem busy_plugin_finishes_cleanup (P : Params) (hP : P.Good) (cleanupMs : Nat
   obtain ⟨h1, h2, h3, h4, h5, h6, h7, h8, h9⟩ := hP
   simp [killBusy, h1, h9, hc, h5]
 
+def pGood : Params := ⟨2000, true, true, true, true, true, true, true, true⟩
+
+/-! ### CleanupClients over any number of managed clients in mixed states -/
+
+private theorem foldl_max_le (l : List Outcome) (b acc : Nat) (hacc : acc ≤ b) (h : ∀ o ∈ l, o.boundMs ≤ b) :
+    l.foldl (fun acc o => max acc o.boundMs) acc ≤ b := by
+  induction l generalizing acc with
+  | nil => simpa using hacc
+  | cons o os ih =>
+    simp only [List.foldl_cons]
+    exact ih _ (Nat.max_le.2 ⟨hacc, h o (by simp)⟩) (fun x hx => h x (by simp [hx]))
+
+/-- **CleanupClients ends every managed client's plugin, whatever state each is in, in bounded time**: for ANY list of
+managed clients (any number, any mix of protocols, shutdown behaviours, lost replies, failed handshakes), when
+`CleanupClients` returns every plugin has exited and is reported as exited, and the call took no longer than the slowest
+single Kill (they run in parallel). -/
+theorem cleanup_clients_all_dead (P : Params) (hP : P.Good) (C : CleanupParams) (hC : C.Good) (ms : List Managed) :
+    (∀ o ∈ cleanupAll P C ms, o.returns = true ∧ o.procDead = true ∧ o.exitedFlag = true) ∧
+    cleanupBoundMs P C ms ≤ libDeadPeerMs + 2000 := by
+  obtain ⟨c1, c2, c3⟩ := hC
+  have hone : ∀ m : Managed, (cleanupOne P C m).returns = true ∧ (cleanupOne P C m).procDead = true ∧
+      (cleanupOne P C m).exitedFlag = true ∧ (cleanupOne P C m).boundMs ≤ libDeadPeerMs + 2000 := by
+    intro m
+    have ht := kill_terminates P hP m.proto m.beh m.replyLost m.hasAddr m.clientOk
+    have hd := kill_leaves_dead P hP m.proto m.beh m.replyLost m.hasAddr m.clientOk
+    simp only [cleanupOne, c1, c2, c3, Bool.and_self, if_true]
+    exact ⟨ht.1, hd.1, hd.2, ht.2.1⟩
+  refine ⟨?_, ?_⟩
+  · intro o ho
+    simp only [cleanupAll, List.mem_map] at ho
+    obtain ⟨m, _, rfl⟩ := ho
+    exact ⟨(hone m).1, (hone m).2.1, (hone m).2.2.1⟩
+  · unfold cleanupBoundMs
+    refine foldl_max_le _ _ 0 (Nat.zero_le _) ?_
+    intro o ho
+    simp only [cleanupAll, List.mem_map] at ho
+    obtain ⟨m, _, rfl⟩ := ho
+    exact (hone m).2.2.2
+
+/-- non-vacuity: three managed clients in different states -/
+example : (cleanupAll pGood ⟨true, true, true⟩ [⟨.grpc, .ignores, false, true, true⟩, ⟨.netrpc, .exitsFast, true, true, true⟩,
+    ⟨.grpc, .deadAlready, false, false, true⟩]).map (·.procDead) = [true, true, true] := by decide
+
+/-- Witnesses: a client registered only when it is started is not in the list if it was never started; a loop that
+returns without waiting says nothing about plugins whose Kill is still running -/
+theorem cleanup_witnesses :
+    (cleanupOne pGood ⟨false, true, true⟩ ⟨.grpc, .ignores, false, true, true⟩).procDead = false ∧
+    (cleanupOne pGood ⟨true, true, false⟩ ⟨.grpc, .ignores, false, true, true⟩).procDead = false := by decide
+
 /-! ### Witnesses -/
 
 /-- if the Shutdown handler lets in-flight requests drain first, the plugin's clean-up starts late and a clean-up of one
@@ -126,7 +175,6 @@ theorem runner_dropped_witness :
     (killStartFailed ⟨2000, true, true, true, true, true, true, false, true⟩).procDead = false := by decide
 
 
-def pGood : Params := ⟨2000, true, true, true, true, true, true, true, true⟩
 
 /-- D3: a gRPC plugin frozen with SIGSTOP: without a deadline on the shutdown RPC, Kill never returns. -/
 theorem frozen_grpc_witness : (kill ⟨2000, true, false, true, true, true, true, true, true⟩ .grpc .frozen false true true).returns = false := by decide
